@@ -381,7 +381,7 @@ def run(ctx):
         ctx.count("stream:option-sweep")
         ctx.count("sweep:%s:%s" % (mode, key))
         run_history(ctx, gen_sweep_history(key, base, mode, text), drv, hid)
-    n, lo, hi = (60, 8, 14) if quick else (500, 20, 30)
+    n, lo, hi = (100, 8, 14) if quick else (500, 20, 30)
     slack = 14 if quick else 30
     for j in range(n):
         if ctx.time_left() < slack:
